@@ -312,8 +312,9 @@ class Engine(object):
             return self.u.typeof(zref) == self.u.class_id(cname)
         return z3.Or([self.u.typeof(zref) == self.u.class_id(s) for s in subs])
 
-    def type_pred(self, z, t):
-        """z3 Bool: value z inhabits type string t (shallow)."""
+    def type_pred(self, z, t, positive=True):
+        """z3 Bool: value z inhabits type string t (shallow).  positive=False leaves out "object ids are positive"
+        (used for checked casts: `typeof_is` in a precondition does not state it)."""
         u = self.u
         if t is None or t == "any":
             return z3.BoolVal(True)
@@ -328,13 +329,15 @@ class Engine(object):
         if t == "float":
             return u.is_X(z)
         if t.startswith("opt:"):
-            return z3.Or(u.is_none(z), self.type_pred(z, t[4:]))
+            return z3.Or(u.is_none(z), self.type_pred(z, t[4:], positive))
         if t.startswith("callable:"):
             return z3.BoolVal(True)
         kind, cls, elem = self.parse_type(t)[:3]
         if kind == "enum":
             return u.is_enum_of(z, cls)
         if kind == "ref":
+            if not positive:
+                return z3.And(u.is_R(z), self.class_test(u.r(z), cls))
             return z3.And(u.is_R(z), u.r(z) > 0, self.class_test(u.r(z), cls))
         return z3.BoolVal(True)
 
